@@ -326,6 +326,9 @@ def rule_dynamic_variable_registration(ctx):
                         sign = els[0][0]
                         shapes.append(sorted("%s%s" % (sg if sign == "+" else cnf._flip(sg), kd[0]) for sg, kd, nd in lits))
                         adds.append(s)
+        if shapes == [["+unk"]]:
+            r.ok(rm.id, "NOT decided: the removal adds a positive unit clause of a variable whose source is not followed to the id->variable table", (adds[0].loc() if adds else rm.loc()))
+            continue
         r.check(shapes == [["+table"]], rm.id, "retirement-clause:%s" % shapes, "removal adds the positive unit clause of the removed argument's variable", "remove_argument adds %s instead of the positive unit clause of the removed argument's variable" % shapes, (adds[0].loc() if adds else rm.loc()))
     # (c)
     n_c = 0
@@ -439,11 +442,13 @@ def rule_removal_cleans_the_tables(ctx):
                     clears.append(_Clear(y, st.site, st.recv, st.idx))
             for s in y.calls():
                 if callee_decl(callee_of(s)) in ("core::option::Option::take", "core::mem::take") and s.node["args"]:
-                    for e in prov(prog, y, s.node["args"][0]):
-                        if _is_call(e, r"IndexMut::index_mut$|Index::index$", 2):
-                            for o in origins(y, s.node["args"][0], transparent=()):
-                                if o.kind == "call" and callee_decl(o.data) == "core::ops::index::IndexMut::index_mut":
-                                    clears.append(_Clear(y, s, o.site.node["args"][0], o.site.node["args"][1]))
+                    # the entry taken: `table[i]`, or the slot a checked `table.get_mut(i)` handed out
+                    from ..core import data_deps as _dd
+
+                    _, dcalls, _ = _dd(y, s.node["args"][0])
+                    for dc in dcalls:
+                        if re.search(r"IndexMut::index_mut$|slice::.*get_mut$|Vec.*::get_mut$", callee_decl(callee_of(dc))) and len(dc.node["args"]) == 2:
+                            clears.append(_Clear(y, s, dc.node["args"][0], dc.node["args"][1]))
 
         # the id->variable table: the one the encoder's literal of an argument is read from
         var_tables = set()
@@ -466,11 +471,11 @@ def rule_removal_cleans_the_tables(ctx):
             r.violation(anchor, "kind-not-reset", "remove_argument leaves the removed variable registered as an argument in the variable->argument table: a model is decoded with an argument that no longer exists", rm.loc())
         else:
             def _vt(y, st):
-                return any(_is_call(t, r"Index::index$|IndexMut::index_mut$", 2) and t[2][0][0] == "param" and t[2][0][3] and t[2][0][3][-1] in var_tables and is_removed_id(t[2][1]) for e in trees_of(y, st.idx) for t in subterms(e))
+                return any(_is_call(t, r"Index::index$|IndexMut::index_mut$|slice::.*get(_mut)?$|Vec.*::get(_mut)?$", 2) and t[2][0][0] == "param" and t[2][0][3] and t[2][0][3][-1] in var_tables and is_removed_id(t[2][1]) for e in trees_of(y, st.idx) for t in subterms(e))
 
             resets.sort(key=lambda ys: not _vt(*ys))
             y, st = resets[0]
-            via_table = any(_is_call(t, r"Index::index$|IndexMut::index_mut$", 2) and t[2][0][0] == "param" and t[2][0][3] and t[2][0][3][-1] in var_tables and is_removed_id(t[2][1]) for e in trees_of(y, st.idx) for t in subterms(e))
+            via_table = any(_is_call(t, r"Index::index$|IndexMut::index_mut$|slice::.*get(_mut)?$|Vec.*::get(_mut)?$", 2) and t[2][0][0] == "param" and t[2][0][3] and t[2][0][3][-1] in var_tables and is_removed_id(t[2][1]) for e in trees_of(y, st.idx) for t in subterms(e))
             r.check(via_table, anchor, "kind-reset-index", "the entry overwritten is that of the removed argument's variable", "the variable->argument entry overwritten on removal is not the one of the removed argument's variable (%s)" % "; ".join(show(e)[:60] for e in prov(prog, y, st.idx)), st.loc())
             if adds and y is rm:
                 a = adds[0]
